@@ -194,7 +194,7 @@ def main():
                         ctx.obligation_failed(f"theorem {t} depends on undeclared axioms: {extra}")
             proofs_ok = ok_pa and not gate and not ctx.obligation_failures
             ctx.proofs_ok = proofs_ok
-        ok_m, mlog = lib.model_build()
+        ok_m, mlog = lib.model_build(keep_gen=not ok_tr)
         if not ok_m:
             ctx.obligation_failed("model/extraction build failed: " + mlog[-400:])
         if ctx.thorough and ok_b:
